@@ -33,53 +33,61 @@ def stress_cases(ctx, res, n):
 
 def run(ctx):
     thorough = ctx.tier == "thorough"
-    for cfg in ["ConcMC_sub_val.cfg", "ConcMC_sub_coll.cfg", "ConcMC_lossy_val.cfg", "ConcMC_lossy_coll.cfg",
-                "ConcMC_gc_coll.cfg", "ConcMC_equiv_coll.cfg", "ConcMC_equiv_val.cfg"] + \
-            (["ConcMC_sub2_coll.cfg", "ConcMC_sub_val3.cfg"] if thorough else []):
-        ctx.mc("ConcMC", cfg, workers=vf.NCPU, timeout=3000)
-    cases = []
+    mcs = ["ConcMC_sub_val.cfg", "ConcMC_sub_coll.cfg", "ConcMC_lossy_val.cfg", "ConcMC_lossy_coll.cfg",
+           "ConcMC_gc_coll.cfg", "ConcMC_equiv_coll.cfg", "ConcMC_equiv_val.cfg"] + \
+        (["ConcMC_sub2_coll.cfg", "ConcMC_sub_val3.cfg"] if thorough else [])
+    G = conc_common.gen
     if thorough:
-        cases += conc_common.gen(ctx, "ConcGen_sub_val.cfg", "val", timeout=1800)
-        cases += conc_common.gen(ctx, "ConcGen_sub_coll.cfg", "coll", timeout=1800)
-        cases += conc_common.gen(ctx, "ConcGen_sub2_coll.cfg", "coll", simulate="num=40000", timeout=1800)
-        cases += conc_common.gen(ctx, "ConcGen_sub_val3.cfg", "val", simulate="num=40000", timeout=1800)
-        cases += conc_common.gen(ctx, "ConcGen_sub2_val_mask.cfg", "val", simulate="num=20000", timeout=1800)
-        cases += conc_common.gen(ctx, "ConcGen_sub2_coll_mask.cfg", "coll", simulate="num=20000", timeout=1800)
-        cases += conc_common.gen(ctx, "ConcGen_gc_coll.cfg", "coll", simulate="num=40000", timeout=1800)
-        cases += conc_common.gen(ctx, "ConcGen_lossy_val.cfg", "val", timeout=1800)
-        cases += conc_common.gen(ctx, "ConcGen_lossy_coll.cfg", "coll", timeout=1800)
+        jobs = [lambda: G(ctx, "ConcGen_sub_val.cfg", "val", timeout=1800),
+                lambda: G(ctx, "ConcGen_sub_coll.cfg", "coll", timeout=1800),
+                lambda: G(ctx, "ConcGen_sub2_coll.cfg", "coll", simulate="num=40000", timeout=1800),
+                lambda: G(ctx, "ConcGen_sub_val3.cfg", "val", simulate="num=40000", timeout=1800),
+                lambda: G(ctx, "ConcGen_sub2_val_mask.cfg", "val", simulate="num=20000", timeout=1800),
+                lambda: G(ctx, "ConcGen_sub2_coll_mask.cfg", "coll", simulate="num=20000", timeout=1800),
+                lambda: G(ctx, "ConcGen_gc_coll.cfg", "coll", simulate="num=40000", timeout=1800),
+                lambda: G(ctx, "ConcGen_lossy_val.cfg", "val", timeout=1800),
+                lambda: G(ctx, "ConcGen_lossy_coll.cfg", "coll", timeout=1800),
+                lambda: G(ctx, "ConcGen_equiv_coll.cfg", "coll", equiv="coll", timeout=1800),
+                lambda: G(ctx, "ConcGen_equiv_val.cfg", "val", equiv="val", timeout=1800)]
+        width = 3
     else:
-        cases += conc_common.gen(ctx, "ConcGen_gc_coll.cfg", "coll", simulate="num=1000")
-        cases += conc_common.gen(ctx, "ConcGen_lossy_val.cfg", "val", simulate="num=600")
-        cases += conc_common.gen(ctx, "ConcGen_lossy_coll.cfg", "coll", simulate="num=1200")
-        cases += conc_common.gen(ctx, "ConcGen_sub_val.cfg", "val", simulate="num=1200")
-        cases += conc_common.gen(ctx, "ConcGen_sub_coll.cfg", "coll", simulate="num=1500")
-        cases += conc_common.gen(ctx, "ConcGen_sub2_coll.cfg", "coll", simulate="num=800")
-        cases += conc_common.gen(ctx, "ConcGen_sub_val3.cfg", "val", simulate="num=800")
-        cases += conc_common.gen(ctx, "ConcGen_sub2_val_mask.cfg", "val", simulate="num=500")
-        cases += conc_common.gen(ctx, "ConcGen_sub2_coll_mask.cfg", "coll", simulate="num=500")
-    # resources with an equivalence configured (changes equal to what the subscriber holds are suppressed)
-    cases += conc_common.gen(ctx, "ConcGen_equiv_coll.cfg", "coll", simulate=None if thorough else "num=700",
-                             equiv="coll", timeout=1800)
-    cases += conc_common.gen(ctx, "ConcGen_equiv_val.cfg", "val", simulate=None if thorough else "num=400",
-                             equiv="val", timeout=1800)
+        jobs = [lambda: G(ctx, "ConcGen_gc_coll.cfg", "coll", simulate="num=1000"),
+                lambda: G(ctx, "ConcGen_lossy_val.cfg", "val", simulate="num=600"),
+                lambda: G(ctx, "ConcGen_lossy_coll.cfg", "coll", simulate="num=1200"),
+                lambda: G(ctx, "ConcGen_sub_val.cfg", "val", simulate="num=1200"),
+                lambda: G(ctx, "ConcGen_sub_coll.cfg", "coll", simulate="num=1500"),
+                lambda: G(ctx, "ConcGen_sub2_coll.cfg", "coll", simulate="num=800"),
+                lambda: G(ctx, "ConcGen_sub_val3.cfg", "val", simulate="num=800"),
+                lambda: G(ctx, "ConcGen_sub2_val_mask.cfg", "val", simulate="num=500"),
+                lambda: G(ctx, "ConcGen_sub2_coll_mask.cfg", "coll", simulate="num=500"),
+                # resources with an equivalence configured (changes equal to what the subscriber holds are suppressed)
+                lambda: G(ctx, "ConcGen_equiv_coll.cfg", "coll", simulate="num=700", equiv="coll"),
+                lambda: G(ctx, "ConcGen_equiv_val.cfg", "val", simulate="num=400", equiv="val")]
+        width = 6
+    mcjobs = [(lambda c=c: ctx.mc("ConcMC", c, workers=4 if not thorough else vf.NCPU, timeout=3000)) for c in mcs]
+    results = conc_common.par(mcjobs + jobs, width=width)
+    cases = [c for r in results[len(mcjobs):] for c in r]
     if len(cases) < 500:
         raise vf.Inconclusive("only %d schedules generated" % len(cases))
     # counterexample schedules of the unordered-publication variant (the defect the publication mutex repairs)
-    att = conc_common.attacks(ctx, "ConcGen_sub_val_pinned.cfg", "val", "converged", 2000 if thorough else 20,
-                              simulate=None if thorough else "num=3000")
-    att += conc_common.attacks(ctx, "ConcGen_sub_coll_pinned.cfg", "coll", "converged", 2000 if thorough else 20,
-                               simulate=None if thorough else "num=3000")
-    # ... and of the variant whose subscriptions are not serialised with commit+publication (lossy stale item)
-    att += conc_common.attacks(ctx, "ConcGen_lossy_attack.cfg", "coll", "converged", 2000 if thorough else 25)
-    # ... and of the variant whose bus is garbage-collected from the copy taken when the publication began
-    att += conc_common.attacks(ctx, "ConcGen_gc_coll_pinned.cfg", "coll", "noMissed", 2000 if thorough else 25,
-                               simulate="num=%d" % (60000 if thorough else 5000))
-    # ... and of the variant that keeps what it last sent for an id after handing its removal over
-    att += conc_common.attacks(ctx, "ConcGen_equiv_coll_keep.cfg", "coll", "converged", 2000 if thorough else 25,
-                               simulate=None if thorough else "num=3000", equiv="coll")
+    A = conc_common.attacks
+    ajobs = [
+        # counterexample schedules of the unordered-publication variant (the defect the publication mutex repairs)
+        lambda: A(ctx, "ConcGen_sub_val_pinned.cfg", "val", "converged", 2000 if thorough else 20,
+                  simulate=None if thorough else "num=3000"),
+        lambda: A(ctx, "ConcGen_sub_coll_pinned.cfg", "coll", "converged", 2000 if thorough else 20,
+                  simulate=None if thorough else "num=3000"),
+        # ... of the variant whose subscriptions are not serialised with commit+publication (lossy stale item)
+        lambda: A(ctx, "ConcGen_lossy_attack.cfg", "coll", "converged", 2000 if thorough else 25),
+        # ... of the variant whose bus is garbage-collected from the copy taken when the publication began
+        lambda: A(ctx, "ConcGen_gc_coll_pinned.cfg", "coll", "noMissed", 2000 if thorough else 25,
+                  simulate="num=%d" % (60000 if thorough else 5000)),
+        # ... of the variant that keeps what it last sent for an id after handing its removal over
+        lambda: A(ctx, "ConcGen_equiv_coll_keep.cfg", "coll", "converged", 2000 if thorough else 25,
+                  simulate=None if thorough else "num=3000", equiv="coll")]
     if thorough:
-        att += conc_common.attacks(ctx, "ConcGen_lossy_coll_pinned.cfg", "coll", "converged", 2000)
+        ajobs.append(lambda: A(ctx, "ConcGen_lossy_coll_pinned.cfg", "coll", "converged", 2000))
+    att = [c for r in conc_common.par(ajobs, width=3 if thorough else 6) for c in r]
     ctx.cov["attack_schedules"] = len(att)
     if len(att) < 20:
         raise vf.Inconclusive("only %d attack schedules found" % len(att))
